@@ -121,6 +121,20 @@ def same_prime_plan(seed: int, k: int, fl_p: str, fl_u: str) -> dict:
             "ops": ops, "entropy_script": [], "mode": "pub", "family": "same-prime"}
 
 
+def many_sids_plan(rkspec, seed: int, k: int, fl_p: str, fl_u: str) -> dict:
+    """A dozen principals' secrets are protected and then unprotected in one process, all at the same key position of one root key:
+    the same group-key id with a dozen different seeds (whatever is remembered per key id, per position or per object must not mix them up)."""
+    sids = [SID, SID2] + [offline.sid_shape(2 + j % 5, k + j) for j in range(10)]
+    ops = [{"op": "identity", "sids": []}]
+    for sid in sids:
+        ops.append({"op": "protect", "fl": fl_p, "sid": sid, "rk": None, "net": "online", "data": 19, "cache": "fresh"})
+    ops.append({"op": "identity", "sids": list(sids)})
+    for j in range(len(sids)):
+        ops.append({"op": "unprotect", "fl": fl_u, "net": "online", "blob": {"from_op": 1 + j}, "cache": "fresh"})
+    return {"seed": seed, "clock_ft": FT, "root_keys": [rkspec], "caller_sids": [], "ctx": {"kind": "stub", "legs": 2, "sig": 16},
+            "ops": ops, "entropy_script": [], "mode": "pub", "family": "many-sids"}
+
+
 def lz(b: bytes) -> int:
     return len(b) - len(b.lstrip(b"\x00"))
 
@@ -130,7 +144,9 @@ def judge(plan, tr: P.Trace):
     rk = tr.root_keys[0]
     prots = [ot for ot in tr.ops if ot.op["op"] == "protect"]
     unps = [ot for ot in tr.ops if ot.op["op"] == "unprotect"]
-    if len(prots) > 1 and plan.get("family") not in ("threads", "same-prime"):
+    if plan.get("family") == "many-sids":
+        probes["many_sids_one_position"] = 1
+    if len(prots) > 1 and plan.get("family") not in ("threads", "same-prime", "many-sids"):
         probes["two_sids_same_position"] = 1
     if plan.get("family") == "threads":
         probes["thread_plans"] = 1
@@ -227,14 +243,14 @@ class C03(common.Check):
             "library unprotects as the authorised principal]. 4 hashes x {nonce, DH RFC 5114, P256, P384} with a committed table of draws that "
             "give a leading-zero ephemeral public value / X / Y coordinate / shared secret; small DH groups (2..8-byte primes, private key "
             "lengths that are not multiples of 8) where leading zeros are frequent; scripted all-zero / leading-zero nonces and nonces that begin with the magic of a public-key structure; PRNG draws; "
-            "two root keys whose DH groups share the prime but differ in key_length padding / generator used one after the other in one process; "
+            "a dozen principals protected and unprotected at one key position in one process; two root keys whose DH groups share the prime but differ in key_length padding / generator used one after the other in one process; "
             "plans in which 2..3 principals protect (and later unprotect) at the same time from caller threads of one process, pre-empted at "
             "PRNG-chosen line events inside dpapi_ng. "
             "Non-trivial = a leading-zero condition held (measured with the reference arithmetic); distinct = distinct plan.")
     components = {"client": "real (new_kek / get_kek / compute_kek / compute_public_key through the public API)", "entropy": "simulated, scripted draws",
                   "DC": "model (RefDC, public-key and seed replies)", "independent implementation": "ref.gkdi + ref.ec (own P-256/P-384 arithmetic, pow() DH, hashlib KDFs)"}
     assumptions = ["reference calibrated on the 16 Windows blobs (gate before every run)", "hash x algorithm sweep is workload parameterisation"]
-    required_fired = ("two_sids_same_position", "key_length_wider_than_modulus", "lz_shared_secret", "lz_public_value", "lz_coord_x", "lz_coord_y", "lz_nonce", "agree_DH_pub", "agree_ECDH_P256_pub", "agree_ECDH_P384_pub", "agree_DH_nonce", "thread_plans", "thread_overlap", "nonce_with_structure_magic", "two_groups_same_prime")
+    required_fired = ("two_sids_same_position", "key_length_wider_than_modulus", "lz_shared_secret", "lz_public_value", "lz_coord_x", "lz_coord_y", "lz_nonce", "agree_DH_pub", "agree_ECDH_P256_pub", "agree_ECDH_P384_pub", "agree_DH_nonce", "thread_plans", "thread_overlap", "nonce_with_structure_magic", "two_groups_same_prime", "many_sids_one_position")
 
     def cases(self, tier, seed):
         rng = prng.stream(seed, "C03")
@@ -255,6 +271,10 @@ class C03(common.Check):
             kl = (2, 3, 4, 8)[k % 4]
             spec = [54 + k % 3, offline.HASHES[k % 4], "DH", {"dh": small_group(kl, k % 40), "priv_len": kl * 8}] if k % 5 else [55, offline.HASHES[k % 4], offline.SECRETS[k % 3]]
             out.append(thread_plan(spec, rng.getrandbits(31), "pub" if rng.random() < 0.8 else "nonce", k))
+        for k in range(24 if tier == "quick" else 1000):
+            kl = (2, 3, 4, 8)[k % 4]
+            spec = [58, offline.HASHES[k % 4], "DH", {"dh": small_group(kl, k % 40), "priv_len": kl * 8}] if k % 3 else [59, offline.HASHES[k % 4], offline.SECRETS[k % 3]]
+            out.append(many_sids_plan(spec, rng.getrandbits(31), k, rng.choice(("sync", "async")), rng.choice(("sync", "async"))))
         for k in range(120 if tier == "quick" else 6000):
             out.append(same_prime_plan(rng.getrandbits(31), k, rng.choice(("sync", "async")), rng.choice(("sync", "async"))))
         n_small = 1500 if tier == "quick" else 60000
@@ -276,7 +296,9 @@ class C03(common.Check):
         tr = P.execute_plan(case)
         viol, probes = judge(case, tr)
         nontrivial = any(k.startswith("lz_") for k in probes)
+        n_unp = sum(1 for o in case["ops"] if o["op"] == "unprotect")
         return {"viol": viol, "digest": tr.world.digest(), "key": common.key_hash(case) if nontrivial else None,
+                "replay_pref": n_unp >= 2,  # (several key derivations inside one case: histories that do not depend on earlier cases)
                 "fired": {"ent_scripted": getattr(tr.world.entropy, "scripted_used", 0), "ent_draws": tr.world.entropy.counter},
                 "probes": probes, "vtime_ns": tr.world.stats.get("vtime_ns", 0)}
 
